@@ -2,7 +2,7 @@
 # behaviour-preserving refactorings (written by sub-agents): no check may raise an alarm on them.
 # usage: tools_refac.sh collect Rk   -> verifies (suite passes) and stores /tmp/refac-Rk/_refac/n as seeded/refactor/Rk-n
 #        tools_refac.sh run Rk-n     -> runs the checks of the area in a scratch worktree, appends to seeded/REFACTOR-MATRIX.txt
-declare -A PROPS=( [R1]="C01 C04 C05 C08 C14 C15" [R2]="C01 C03 C07 C13" [R3]="C02 C03 C06 C13" [R4]="C09 C10 C11 C12 C14" [R5]="C16" [R6]="C02 C05 C12 C14 C15" )
+declare -A PROPS=( [R1]="C01 C04 C05 C08 C14 C15" [R2]="C01 C03 C07 C13" [R3]="C02 C03 C06 C13" [R4]="C09 C10 C11 C12 C14" [R5]="C16" [R6]="C02 C05 C12 C14 C15" [R7]="C01 C07 C08 C14" [R8]="C02 C03 C06 C01" [R9]="C10 C12" [R10]="C09 C11 C12" [R11]="C08 C12 C06 C14" [R12]="C16 C12 C14" )
 cmd=$1
 case $cmd in
 collect)
